@@ -24,14 +24,14 @@ RULE = ("a case places secret fields (aes / xor / best) at the root, in sub-sche
         "opens during dumps/loads contains no key file other than the expected ones, (4) a fresh configuration (new "
         "objects; 1 in 40 in a new process) loading the document gets every plaintext back; non-trivial = >= 2 "
         "non-empty secrets at >= 2 depths; distinct = distinct case content")
-REQUIRED = ("layout:names-inherited-file", "documents_scanned_for_tokens", "ciphertexts_decrypted_by_oracle", "keyfile_open_sets_checked",
+REQUIRED = ("layout:transplanted-subconfig", "layout:names-inherited-file", "documents_scanned_for_tokens", "ciphertexts_decrypted_by_oracle", "keyfile_open_sets_checked",
             "reloads_compared", "layout:root-ctor", "layout:root-attr", "layout:sub", "layout:ctype", "layout:default",
             "secrets_in_list_items", "rekey_after_first_use", "new_process_reloads")
 ASSUMPTIONS = ["only files under the sandbox root are considered; HOME is redirected so the default key file is sandboxed",
                "ciphertext equality is never compared (fresh IV)", "documents are decoded with the library's codecs (C04)",
                "a key file named on a sub-configuration *instance* is judged for saving only: loading a document rebuilds "
                "sub-configurations, which a key named on the old instance cannot survive (not part of the statement)"]
-POSITIONS = ["s", "lst", "a.s", "a.b.s", "a.b.c.s", "t.s", "t.inner.s", "items", "titems"]
+POSITIONS = ["s", "lst", "dsec", "a.dsec", "a.s", "a.b.s", "a.b.c.s", "t.s", "t.inner.s", "items", "titems"]
 
 
 def generate(rng, ctx):
@@ -52,6 +52,8 @@ def generate(rng, ctx):
         layout["T"] = True
     if layout["a_same"]:
         layout["a"] = True
+    # a sub-configuration object that already lives in another tree (with another key file) is assigned into this one
+    layout["transplant_a"] = (not layout["a"]) and (not layout["ab"]) and rng.random() < 0.25
     methods = {p: rng.choice(["aes", "xor", "best"]) for p in POSITIONS}
 
     def secret(empty_ok=True):
@@ -62,7 +64,9 @@ def generate(rng, ctx):
         pad = "".join(rng.choice("abc xyzé中\U0001f600") for _ in range(max(0, n - len(tok))))
         return (pad[: len(pad) // 2] + tok + pad[len(pad) // 2:]) if rng.random() < 0.7 else tok
     values = {
-        "s": secret(), "lst": [secret(False) for _ in range(rng.choice([0, 1, 2, 3]))], "a.s": secret(), "a.b.s": secret(),
+        "s": secret(), "lst": [secret(False) for _ in range(rng.choice([0, 1, 2, 3]))],
+        "dsec": {"k%d" % i: secret(False) for i in range(rng.choice([0, 1, 2]))},
+        "a.dsec": {"key.%d" % i: secret(False) for i in range(rng.choice([0, 1, 2]))}, "a.s": secret(), "a.b.s": secret(),
         "a.b.c.s": secret(), "t.s": secret(), "t.inner.s": secret(),
         "items": [{"s": secret(), "sub": {"s": secret()}, "n": i} for i in range(rng.choice([0, 1, 2, 3]))],
         "titems": [{"s": secret(), "n": i} for i in range(rng.choice([0, 1, 2]))],
@@ -86,6 +90,8 @@ def build_schema(cc, case, d):
     root.name = cc.StringField(default="app")
     root.s = cc.SecureField(method=m["s"])
     root.lst = cc.ListField(cc.SecureField(method=m["lst"]))
+    root.dsec = cc.DictField(cc.StringField(), cc.SecureField(method=m["dsec"]))
+    root.a.dsec = cc.DictField(cc.StringField(), cc.SecureField(method=m["a.dsec"]))
     root.a.s = cc.SecureField(method=m["a.s"])
     root.a.plain = cc.IntField(default=1)
     root.a.b.s = cc.SecureField(method=m["a.b.s"])
@@ -133,13 +139,15 @@ def expected_keys(case, d, default, rootkey="root.key", sub=True):
     abk = os.path.join(d, "ab.key") if (lay["ab"] and sub) else ak
     tk = os.path.join(d, "root.key" if lay.get("T_same") else "T.key") if lay["T"] else rk
     tik = os.path.join(d, "TI.key") if lay["TI"] else rk
-    return {"s": rk, "lst": rk, "a.s": ak, "a.b.s": abk, "a.b.c.s": abk, "t.s": tk, "t.inner.s": tk, "items": rk,
+    return {"s": rk, "lst": rk, "dsec": rk, "a.dsec": ak, "a.s": ak, "a.b.s": abk, "a.b.c.s": abk, "t.s": tk, "t.inner.s": tk, "items": rk,
             "titems": tik}
 
 
 def fill(cfg, values):
     cfg.s = values["s"]
     cfg.lst = list(values["lst"])
+    cfg.dsec = dict(values.get("dsec", {}))
+    cfg.a.dsec = dict(values.get("a.dsec", {}))
     cfg.a.s = values["a.s"]
     cfg.a.b.s = values["a.b.s"]
     cfg.a.b.c.s = values["a.b.c.s"]
@@ -156,6 +164,10 @@ def secret_positions(values):
            ("t.inner.s", ["t", "inner", "s"], values["t.inner.s"])]
     for i, v in enumerate(values["lst"]):
         out.append(("lst", ["lst", i], v))
+    for k, v in values.get("dsec", {}).items():
+        out.append(("dsec", ["dsec", k], v))
+    for k, v in values.get("a.dsec", {}).items():
+        out.append(("a.dsec", ["a", "dsec", k], v))
     for i, it in enumerate(values["items"]):
         out.append(("items", ["items", i, "s"], it["s"]))
         out.append(("items", ["items", i, "sub", "s"], it["sub"]["s"]))
@@ -173,7 +185,7 @@ def dig(tree, path):
 
 def read_values(cfg):
     return {
-        "s": cfg.s, "lst": list(cfg.lst or []), "a.s": cfg.a.s, "a.b.s": cfg.a.b.s, "a.b.c.s": cfg.a.b.c.s, "t.s": cfg.t.s,
+        "s": cfg.s, "lst": list(cfg.lst or []), "dsec": dict(cfg.dsec or {}), "a.dsec": dict(cfg.a.dsec or {}), "a.s": cfg.a.s, "a.b.s": cfg.a.b.s, "a.b.c.s": cfg.a.b.c.s, "t.s": cfg.t.s,
         "t.inner.s": cfg.t.inner.s,
         "items": [{"s": it.s, "sub": {"s": it.sub.s}, "n": it.n} for it in (cfg.items or [])],
         "titems": [{"s": it.s, "n": it.n} for it in (cfg.titems or [])],
@@ -192,7 +204,7 @@ def run(case, ctx, res):
     log = ctx.filelog
     if log is None:
         log = ctx.filelog = FileLog(ctx.sb.root)
-    allkeys = [os.path.join(d, n) for n in ("root.key", "root2.key", "a.key", "ab.key", "T.key", "TI.key")] + [default]
+    allkeys = [os.path.join(d, n) for n in ("root.key", "root2.key", "a.key", "ab.key", "T.key", "TI.key", "donor.key")] + [default]
     if lay["existing"]:
         for i, p in enumerate(allkeys):
             with open(p, "wb") as fp:
@@ -200,6 +212,12 @@ def run(case, ctx, res):
     schema = build_schema(cc, case, d)
     cfg = make_config(cc, schema, case, d)
     fill(cfg, case["values"])
+    if lay.get("transplant_a"):
+        donor = cc.Config(schema, key_filename=os.path.join(d, "donor.key"))
+        fill(donor, case["values"])
+        donor.dumps("json")  # the donor tree has used its own key file already
+        cfg.a = donor.a
+        res.count("layout:transplanted-subconfig")
     for name in ("root-ctor" if lay["root"] == "ctor" else "root-attr" if lay["root"] == "attr" else "default",):
         res.count("layout:" + name)
     if lay["a"] or lay["ab"]:
@@ -329,7 +347,12 @@ def _save_and_check(cc, ctx, res, case, cfg, schema, fmt, positions, exp, log, a
     res.count("reloads_compared")
     for pos, path, plain in positions:
         try:
-            val = dig(got, path) if pos in ("lst", "items", "titems") else got[pos]
+            if pos in ("lst", "items", "titems", "dsec"):
+                val = dig(got, path)
+            elif pos == "a.dsec":
+                val = got["a.dsec"][path[-1]]
+            else:
+                val = got[pos]
         except Exception:
             val = "<missing>"
         if _norm(val) != _norm(plain):
